@@ -27,6 +27,23 @@ def deep_programs(rng, tier):
             p.append(['sub', 0, 1])
         p += [['ops', 0], ['flatten', 0], ['ops', 0], ['reps', 0], ['flatten', 0], ['ops', 0]]
         out.append(p)
+    # a nested block whose operations take their durations from the global settings: timing query, NEW duration setting, timing
+    # query, flatten, timing query (seeded change C11-m7: a block keeps the lead/span it computed first, reset by add / unroll /
+    # flatten only — the nested schedule goes stale under the new setting while the flattened one is right)
+    for _ in range(20 if tier == 'quick' else 400):
+        q = rng.randrange(3)
+        p = [['new', 'f1'], ['new', f'f{rng.choice([1, 1, 2])}']]
+        for _ in range(rng.randint(1, 3)):
+            p.append(['op', 1, rng.choice(['Rx180', 'DispersiveMeasure', 'CPhase', 'Reset']), [q] if rng.random() < 0.7 else [rng.randrange(3)],
+                      'A', None, 0, 1, [], None])
+        p = [c[:3] + [[c[3][0], (c[3][0] + 1) % 3]] + c[4:] if c[0] == 'op' and c[2] == 'CPhase' else c for c in p]
+        p.append(['op', 0, rng.choice(['Rx180', 'Wait']), [q], 'M', None, 0, 0, [], None])
+        p.append(['sub', 0, 1])
+        p.append(['op', 0, rng.choice(['Rx180', 'DispersiveMeasure']), [q], 'A', None, 0, 0, [], None])
+        if rng.random() < 0.5:
+            p.append(['apply', 0])
+        p += [['list', 0], ['gdur'] + [rng.choice(progs.GDUR_CHOICES) for _ in range(4)], ['list', 0], ['flatten', 0], ['list', 0]]
+        out.append(p)
     return out
 
 
